@@ -184,7 +184,7 @@ add("C04", "fault_enumeration",
     "a logical bound on transport calls per poll): (a) all byte strings up to the length bound over a 16-symbol boundary alphabet in each phase; (b,c) ~70 valid packets of every type - expected, unexpected for the phase, "
     "client-only, acknowledgements for unknown identifiers, spliced/zero/unknown properties - whole, duplicated, every truncation, every byte perturbed, every bit flipped, remaining length rewritten incl. 5-byte encodings, stacked PRNG mutations; "
     "(d) EOF / read error at every inbound byte offset and write error at every outbound byte offset of a canned conversation. Debug and release arithmetic. distinct = distinct (input bytes, phase) pairs.",
-    {"quick": ["checked", "fast"], "thorough": ["checked", "fast", "asan?", "miri?"]},
+    {"quick": ["checked", "fast", "dev"], "thorough": ["checked", "fast", "dev", "asan?", "miri?"]},
     {"quick": {"byte_strings": 100000, "byte_mutations": 30000, "truncations": 3000, "read_faults": 200, "write_faults": 100}, "thorough": {"byte_strings": 3000000}},
     ["the documented assertion on brokers announcing no subscription-identifier support is exempt (its panic message is recognised and not reported)"], timeout=3400)
 MANIFEST_TEXT["C04"] = {
@@ -304,6 +304,24 @@ for _cid, _m in {
     "C12": {"largest_packets_written_in_full": 1},
     "C13": {"refusing_connacks_with_subscription_identifiers_unavailable": 40},
     "C17": {"resent_publishes_with_retain_and_properties": 1000},
+}.items():
+    EXTRA_MIN.setdefault(_cid, {}).update(_m)
+# round 12
+for _cid, _m in {
+    "C01": {"torn_packet_cases": 60},
+    "C03": {"second_connections_with_packets_behind_the_connack": 50},
+    "C04": {"deep_read_cases": 30},
+    "C05": {"requests_over_the_maximum_packet_size": 500},
+    "C06": {"publishes_with_multi_byte_characters_in_the_topic": 500},
+    "C07": {"identifier_shared_between_directions_cases": 10, "inbound_publishes_with_topic_alias_in_place_of_the_topic": 500},
+    "C08": {"inbound_publishes_with_topic_alias_in_place_of_the_topic": 200},
+    "C09": {"identifier_shared_between_directions_cases": 10},
+    "C10": {"resumption_cases_with_unanswered_non_publish_requests": 50},
+    "C11": {"publishes_with_multi_byte_characters_in_the_topic": 10000, "requests_over_the_maximum_packet_size": 300},
+    "C12": {"cases_over_a_transport_taking_packets_in_pieces": 1000},
+    "C13": {"server_disconnects_ending_in_a_user_property_with_empty_value": 100},
+    "C16": {"directed_given_up_scripts": 15},
+    "C17": {"packets_arriving_together_with_the_connack_of_a_later_connection": 5000},
 }.items():
     EXTRA_MIN.setdefault(_cid, {}).update(_m)
 for _cid, _m in EXTRA_MIN.items():
